@@ -308,7 +308,8 @@ class Scenario:
         for role, a in dec.pointers(out):
             b = self.heap.block_at(a)
             if b is not None and b.state == "live" and b.call != cid:
-                self.viol(("C05",), "handed_back_foreign_array", phase, role, b.call)
+                # not a clause of C05 by itself (ownership is C13's business, engine S)
+                self.probe("handed_back_array_not_allocated_by_this_call")
 
     # ------------------------------------------------------------------
     def run(self):
@@ -350,8 +351,15 @@ class Scenario:
             ins_s = ins if values is None else self.make_inputs(values)
             before_ptrs = struct_fingerprint(out_a)
             cid_c, ret, tr, _ = self.call("compute", out_a, ins_s, phase, allowed)
-            if tr:
-                self.viol(("C04",), "compute_made_heap_call", phase, tr[:4])
+            # the statement forbids changing or reallocating the structure; a compute kernel that
+            # allocated and released a private workspace would be legal, so only calls that touch
+            # blocks which existed before the call are violations
+            pre = {e[1] for e in tr if e[0] in ("r", "f") and isinstance(e[1], int)
+                   and self.heap.by_id[e[1]].call != cid_c}
+            if pre:
+                self.viol(("C04",), "compute_reallocated_or_freed_structure", phase, tr[:4])
+            elif not tr:
+                self.probe("compute_made_no_heap_call")
             if struct_fingerprint(out_a) != before_ptrs:
                 self.viol(("C04",), "compute_changed_structure_pointers", phase)
             lv_c, vals_c, nnz_c = self.decode_out(out_a, phase)
